@@ -62,7 +62,8 @@ Lemma xlate_some : forall a line col n l c k sc,
   xlate_and_clip a line col n = Some (l, c, k, sc) ->
   (forall y x, target a (row_rect line col n) y x = (y =? l) && (c <=? x) && (x <? c + k)) /\
   0 <= k /\ sc = c - (col + xc a) /\ l = line + xl a /\
-  top (clip a) <= l < top (clip a) + lines (clip a) /\ left (clip a) <= c /\ c + k <= left (clip a) + cols (clip a).
+  top (clip a) <= l < top (clip a) + lines (clip a) /\ left (clip a) <= c /\ c + k <= left (clip a) + cols (clip a) /\
+  col + xc a <= c.
 Proof.
   intros a line col n l c k sc Hcc H.
   unfold xlate_and_clip, bottom, right in H.
@@ -77,7 +78,8 @@ Proof.
      (c + k = Z.min (col + xc a + n) (left (clip a) + cols (clip a))) ->
      (forall y x, target a (row_rect line col n) y x = (y =? l) && (c <=? x) && (x <? c + k)) /\
      0 <= k /\ sc = c - (col + xc a) /\ l = line + xl a /\
-     top (clip a) <= l < top (clip a) + lines (clip a) /\ left (clip a) <= c /\ c + k <= left (clip a) + cols (clip a)).
+     top (clip a) <= l < top (clip a) + lines (clip a) /\ left (clip a) <= c /\ c + k <= left (clip a) + cols (clip a) /\
+     col + xc a <= c).
   { intros c0 k0 sc0 El Hc0 Hk0 Hk1 Esc Ec0 Ek0. repeat split; try (clear H; lia).
     intros y x. apply bool_eq_iff. rewrite target_iff.
     unfold row_rect. cbn [top left lines cols].
